@@ -29,6 +29,14 @@ def import_uberjob():
     import uberjob._execution.run_function_on_graph  # noqa
     import uberjob._execution.scheduler  # noqa
     import uberjob._transformations.caching  # noqa
+    # The lock every Plan creates for itself is a simulated one for the whole life of a harness process, also for
+    # Plans built before their run is simulated (the simulated RLock works outside a simulation as plain bookkeeping):
+    # runs of one Plan from several simulated threads - or a change that makes copies share the lock - must contend
+    # for it under the scheduler, not for a real lock the scheduler cannot see.
+    import uberjob._plan as _plan_mod
+
+    if getattr(_plan_mod, "RLock", None) is not prims.RLock and hasattr(_plan_mod, "RLock"):
+        _plan_mod.RLock = prims.RLock
     return uberjob
 
 
